@@ -7,5 +7,6 @@ from vlib import auth
 
 
 def run(ctx):
+    ctx.repro_attempts = 6   # verdicts that depend on map iteration order are retried in fresh processes
     auth.run_families(ctx, "c07", auth.FAMILIES_ALL)
     auth.record_and_validate(ctx, 16000 if ctx.tier == "quick" else 60000)
